@@ -109,9 +109,15 @@ def run_damage(kind, damages, seed=0, tid=1):
     empty = kind == 'fanout-empty'      # the damaged shard never received a key (its item counter is 0)
     if empty:
         kind = 'fanout'
+    link = kind == 'cache-symlink'     # the directory is opened through a symbolic link (a non-canonical spelling of its path)
+    if link:
+        kind = 'cache'
     rng = random.Random(seed)
     envctl.SeededUrandom(seed).install()
-    top = envctl.scratch('chk')
+    top = real_top = envctl.scratch('chk')
+    if link:
+        top = real_top + '-link'
+        os.symlink(real_top, top)
     vm = ValMap()
     try:
         if kind == 'fanout':
@@ -125,6 +131,9 @@ def run_damage(kind, damages, seed=0, tid=1):
                 400000 + 40 * 100 + 3]
         for i, v in enumerate(vals * reps):
             obj.set(2 * i if empty else i, vm.to_py(v))        # (even integers live in shard 000 of two)
+        if not empty:
+            import io as _io
+            obj.set(1001, _io.BytesIO(b''), read=True)         # a value of length zero kept in a file (shard 001)
         obj.close()
         con = sqlite3.connect(os.path.join(root, 'cache.db'))
         frows = con.execute('SELECT rowid, filename, size FROM Cache WHERE filename IS NOT NULL ORDER BY rowid').fetchall()
@@ -226,4 +235,6 @@ def run_damage(kind, damages, seed=0, tid=1):
                 'busy': busy, 'raised0': raised0, 'warn0': warn0}
     finally:
         envctl.SeededUrandom.uninstall()
-        envctl.rm(top)
+        if top != real_top:
+            os.unlink(top)
+        envctl.rm(real_top)
